@@ -471,6 +471,40 @@ Definition of_vm (r : vm_result * list (N * N)) (st0 : state) (err : list (list 
   | VOutOfFuel st => mkSres 4 0 st None err (ticks + n) (execs + n) cmds
   end.
 
+(** One iteration of the loop of [RunEnvironment::run] while the debugger is attached. *)
+Inductive tick_result :=
+| TStop (kind code : N) (st : state) (d : dbg) (execd : N) (n : N)   (* the session ends here *)
+| TDetach (d : dbg) (st : state) (n : N)                             (* `quit` / end of input *)
+| TNext (rest : list cmd) (d : dbg) (st : state) (execd : N) (n : N).
+   (* [execd]: instructions executed by this iteration (0 or 1); [n]: commands read by it *)
+
+Definition tick (env : dbg_env) (script : list cmd) (d : dbg) (st : state) : tick_result :=
+  match next_action env script d st with
+  | NaStop r d1 rest n =>
+      match r with
+      | Exited c st' => TStop 1 c st' d1 0 n
+      | Panicked st' => TStop 2 0 st' d1 0 n
+      | _ => TStop 3 0 st d1 0 n
+      end
+  | NaAction ExitProgram d1 st1 rest n => TStop 7 0 st1 d1 0 n
+  | NaAction StopDebugger d1 st1 rest n => TDetach d1 st1 n
+  | NaAction Proceed d1 st1 rest n =>
+      (* never execute HALT while attached; out of bounds is caught on the next iteration *)
+      if at_halt st1 then TNext rest d1 st1 0 n
+      else if (s_pc st1 <? s_orig st1) || (65024 <=? s_pc st1) then TNext rest d1 st1 0 n
+      else
+        let d2 := set_icount d1 (d_icount d1 + 1) in
+        let instr := M st1 (s_pc st1) in
+        if W <=? s_pc st1 + 1 then TStop 2 0 st1 d2 0 n
+        else
+          match execute (e_feat env) instr (set_pc st1 (s_pc st1 + 1)) with
+          | Running st2 => TNext rest d2 st2 1 n
+          | Exited c st2 => TStop 1 c st2 d2 1 n
+          | Panicked st2 => TStop 2 0 st2 d2 1 n
+          | Diverged => TStop 3 0 st1 d2 1 n
+          end
+  end.
+
 (** [fuel] bounds the iterations of the loop while the debugger is attached; once it is detached
     the plain loop [vm_run] continues with what is left. *)
 Fixpoint session (env : dbg_env) (fuel : nat) (script : list cmd) (d : dbg) (st : state)
@@ -478,32 +512,12 @@ Fixpoint session (env : dbg_env) (fuel : nat) (script : list cmd) (d : dbg) (st 
   match fuel with
   | O => mkSres 4 0 st (Some d) (lrev (d_err d)) ticks execs cmds
   | S fuel' =>
-      match next_action env script d st with
-      | NaStop r d1 rest n =>
-          match r with
-          | Exited c st' => mkSres 1 c st' (Some d1) (lrev (d_err d1)) (ticks + 1) execs (cmds + n)
-          | Panicked st' => mkSres 2 0 st' (Some d1) (lrev (d_err d1)) (ticks + 1) execs (cmds + n)
-          | _ => mkSres 3 0 st (Some d1) (lrev (d_err d1)) (ticks + 1) execs (cmds + n)
-          end
-      | NaAction ExitProgram d1 st1 rest n =>
-          mkSres 7 0 st1 (Some d1) (lrev (d_err d1)) (ticks + 1) execs (cmds + n)
-      | NaAction StopDebugger d1 st1 rest n =>
+      match tick env script d st with
+      | TStop kind code st' d1 e n =>
+          mkSres kind code st' (Some d1) (lrev (d_err d1)) (ticks + 1) (execs + e) (cmds + n)
+      | TDetach d1 st1 n =>
           of_vm (vm_run (e_feat env) fuel' st1 []) st1 (lrev (d_err d1)) (ticks + 1) execs (cmds + n)
-      | NaAction Proceed d1 st1 rest n =>
-          if at_halt st1 then session env fuel' rest d1 st1 (ticks + 1) execs (cmds + n)
-          else if (s_pc st1 <? s_orig st1) || (65024 <=? s_pc st1)
-          then session env fuel' rest d1 st1 (ticks + 1) execs (cmds + n)
-          else
-            let d2 := set_icount d1 (d_icount d1 + 1) in
-            let instr := M st1 (s_pc st1) in
-            if W <=? s_pc st1 + 1 then mkSres 2 0 st1 (Some d2) (lrev (d_err d2)) (ticks + 1) execs (cmds + n)
-            else
-              match execute (e_feat env) instr (set_pc st1 (s_pc st1 + 1)) with
-              | Running st2 => session env fuel' rest d2 st2 (ticks + 1) (execs + 1) (cmds + n)
-              | Exited c st2 => mkSres 1 c st2 (Some d2) (lrev (d_err d2)) (ticks + 1) (execs + 1) (cmds + n)
-              | Panicked st2 => mkSres 2 0 st2 (Some d2) (lrev (d_err d2)) (ticks + 1) (execs + 1) (cmds + n)
-              | Diverged => mkSres 3 0 st1 (Some d2) (lrev (d_err d2)) (ticks + 1) (execs + 1) (cmds + n)
-              end
+      | TNext rest d1 st1 e n => session env fuel' rest d1 st1 (ticks + 1) (execs + e) (cmds + n)
       end
   end.
 
